@@ -413,6 +413,175 @@ static void shifted(const struct cfg5 *c, int k, int shift, uint8_t *y8)
  * configuration is perturbed in one field (field heights that differ by one with interlaced storage, a field
  * without lines, bytes_per_line too small for the samples or not a multiple of the pixel size, start lines
  * outside the picture, absurd offsets and rates); a rejection is as good as a safe decode. */
+/* The shortest line the new bit slicer accepts.  vbi3_bit_slicer_set_params() refuses a samples_per_line in which
+ * CRI, FRC and payload (plus the 16 sample window of the low-pass slicer) do not fit behind sample_offset; whatever
+ * it accepts must be safe.  The smallest accepted samples_per_line (found by bisection: acceptance is monotone) and
+ * the next few are the configurations in which the CRI search window is one sample, two samples ... wide.  The line
+ * buffer is exactly samples_per_line * bpp bytes against a guard page; contents: flat (no CRI is ever found, the
+ * search runs to its end), noise, and the head of a real signal. */
+static void slicer_edge(const struct cfg5 *c0, struct vf_rng *r)
+{
+	static const int rates[] = { 13500000, 14750000, 27000000, 35468950, 6750000, 17734475 };
+	struct cfg5 c = *c0;
+	const struct svc *s = &c04_svc[vf_below(r, sizeof c04_svc / sizeof c04_svc[0])];
+	const _vbi_service_par *p = c04_lib_par(s->id);
+	unsigned sample_offset = vf_chance(r, 1, 2) ? 0 : (unsigned)vf_range(r, 1, 60);
+	unsigned lo = 1, hi = 8192, spl;
+	int nb = (s->payload_bits + 7) / 8, k, fill;
+	vbi3_bit_slicer *bs;
+	uint8_t *buf;
+	if (!p) return;
+	c.sp.sampling_rate = rates[vf_below(r, sizeof rates / sizeof rates[0])];
+	bs = vbi3_bit_slicer_new();
+	if (!bs) return;
+#define EDGE_SET(n) vbi3_bit_slicer_set_params(bs, c.sp.sampling_format, (unsigned)c.sp.sampling_rate, sample_offset, (n), \
+		p->cri_frc >> p->frc_bits, p->cri_frc_mask >> p->frc_bits, p->cri_bits, p->cri_rate, ~0u, \
+		p->cri_frc & ((1u << p->frc_bits) - 1), p->frc_bits, p->payload, p->bit_rate, (vbi3_modulation)p->modulation)
+	vf_phase("vbi3_bit_slicer_set_params");
+	if (!EDGE_SET(hi)) { vf_count("slicer_edge_never_accepted", 1); vbi3_bit_slicer_delete(bs); return; }
+	while (lo < hi) { unsigned mid = (lo + hi) / 2; if (EDGE_SET(mid)) hi = mid; else lo = mid + 1; }
+	buf = out_buffer((size_t)nb);
+	for (k = 0; k < 3; k++) {
+		spl = hi + (unsigned)k;
+		if (!EDGE_SET(spl)) { vf_fail("harness:C05:slicer-edge-not-monotone", "samples_per_line %u refused, %u accepted | %s", spl, hi, s->name); break; }
+		c.spl = (int)spl;
+		for (fill = 0; fill < 3; fill++) {
+			size_t nbytes = (size_t)spl * (size_t)c.bpp;
+			uint8_t *line = EXACT_ALLOC(nbytes, 1);
+			const char *f = job_func(&c, bs);
+			if (fill == 0) memset(line, vf_chance(r, 1, 2) ? 0x10 : (int)vf_below(r, 256), nbytes);
+			else if (fill == 1) vf_bytes(r, line, nbytes);
+			else {
+				/* a square wave at the CRI rate: the CRI matches as early as possible, FRC and payload follow at the very end */
+				size_t q; double per = (double)c.sp.sampling_rate / (double)p->cri_rate;
+				for (q = 0; q < nbytes; q++) line[q] = (((size_t)((double)(q / (size_t)c.bpp) / per)) & 1) ? 0xE0 : 0x10;
+			}
+			next_prefill();
+			memset(buf, PREFILL, (size_t)nb);
+			set_phase("vbi3_bit_slicer_slice", "shortest-accepted-line", &c);
+			(void)f;
+			vbi3_bit_slicer_slice(bs, buf, (unsigned)nb, line);
+			vf_count("slicer_edge_slices", 1);
+			EXACT_FREE(line);
+		}
+	}
+	/* The caller may also end the CRI search window himself (parameter cri_end): a window of zero, one, two ...
+	 * samples behind sample_offset, or ending anywhere in the line.  Refusing is fine, accepting must be safe. */
+	for (k = 0; k < 6; k++) {
+		unsigned spl2 = hi + (unsigned)vf_range(r, 0, 600);
+		unsigned ce = k < 3 ? sample_offset + (unsigned)k : k == 3 ? (unsigned)vf_range(r, 0, (int)spl2) : k == 4 ? spl2 - (unsigned)vf_range(r, 0, 3) : sample_offset + (unsigned)vf_range(r, 0, 40);
+		size_t nbytes = (size_t)spl2 * (size_t)c.bpp;
+		uint8_t *line;
+		vf_phase("vbi3_bit_slicer_set_params");
+		if (!vbi3_bit_slicer_set_params(bs, c.sp.sampling_format, (unsigned)c.sp.sampling_rate, sample_offset, spl2,
+				p->cri_frc >> p->frc_bits, p->cri_frc_mask >> p->frc_bits, p->cri_bits, p->cri_rate, ce,
+				p->cri_frc & ((1u << p->frc_bits) - 1), p->frc_bits, p->payload, p->bit_rate, (vbi3_modulation)p->modulation)) {
+			vf_count("slicer_edge_cri_end_refused", 1);
+			continue;
+		}
+		c.spl = (int)spl2;
+		for (fill = 0; fill < 2; fill++) {
+			line = EXACT_ALLOC(nbytes, 1);
+			if (fill == 0) memset(line, 0x10, nbytes); else vf_bytes(r, line, nbytes);
+			next_prefill();
+			memset(buf, PREFILL, (size_t)nb);
+			set_phase("vbi3_bit_slicer_slice", "caller-set-cri-end", &c);
+			vbi3_bit_slicer_slice(bs, buf, (unsigned)nb, line);
+			EXACT_FREE(line);
+		}
+		vf_count("slicer_edge_cri_end_accepted", 1);
+		if (!strcmp(job_func(&c, bs), "lowpass")) vf_count("slicer_edge_cri_end_accepted_lowpass", 1);
+	}
+	vf_count("slicer_edge_configs", 1);
+	if (job_func(&c, bs) && !strcmp(job_func(&c, bs), "lowpass")) vf_count("slicer_edge_configs_lowpass", 1);
+	vbi3_bit_slicer_delete(bs);
+#undef EDGE_SET
+}
+
+/* Reconfiguration histories: an existing decoder (with its jobs, learnt line pattern and slicers of the previous
+ * image geometry) is given other sampling parameters, in the documented ways - vbi3_raw_decoder_set_sampling_par()
+ * + add_services; 0.2 API: vbi_raw_decoder_reset(), edit the public fields, add_services, or vbi_raw_decoder_resize()
+ * for start / count.  One field changes per step (narrower or wider lines, lines moved between the fields, fewer or
+ * more lines, field order known / unknown, interlaced storage).  After each step an image of exactly the NEW size
+ * stands against the guard page (start or end) and is decoded with hostile content. */
+static void reconfigure(const struct cfg5 *c0, struct rx *x, struct vf_rng *r)
+{
+	struct cfg5 c = *c0;
+	int step, nsteps = vf_range(r, 2, 4);
+	for (step = 0; step < nsteps && !vf_failed(); step++) {
+		vbi_sampling_par *sp = &c.sp;
+		int what = (int)vf_below(r, 9), scan, n, i, use_resize = 0, end_aligned = (int)vf_below(r, 2), pass;
+		size_t img_size;
+		uint8_t *img;
+		vbi_sliced *out;
+		char desc[80];
+		switch (what) {
+		case 0: sp->bytes_per_line += c.bpp * vf_range(r, 1, 300); break;                               /* padded / wider */
+		case 1: case 2: if (sp->bytes_per_line > c.bpp * 200) sp->bytes_per_line -= c.bpp * vf_range(r, 1, sp->bytes_per_line / c.bpp / 3); break; /* narrower */
+		case 3: if (sp->count[0] > 1) { sp->count[0]--; sp->count[1]++; } else if (sp->count[1] > 1) { sp->count[1]--; sp->count[0]++; } use_resize = (int)vf_below(r, 2); break;
+		case 4: if (sp->count[0] > 2) sp->count[0] -= vf_range(r, 1, sp->count[0] / 2); else sp->count[0] += 2; use_resize = (int)vf_below(r, 2); break;
+		case 5: if (sp->count[1] > 2) sp->count[1] -= vf_range(r, 1, sp->count[1] / 2); else sp->count[1] += 2; use_resize = (int)vf_below(r, 2); break;
+		case 6: sp->synchronous = !sp->synchronous; break;
+		case 7: if (sp->count[0] == sp->count[1]) sp->interlaced = !sp->interlaced; else sp->synchronous = !sp->synchronous; break;
+		default: sp->count[0] += vf_range(r, 1, 3); sp->count[1] += vf_range(r, 0, 3); use_resize = (int)vf_below(r, 2); break;
+		}
+		if (sp->interlaced && sp->count[0] != sp->count[1]) sp->interlaced = 0;
+		c.spl = sp->bytes_per_line / c.bpp;
+		scan = sp->count[0] + sp->count[1];
+		if (scan < 1 || scan > 200 || c.spl < 1) return;
+		snprintf(desc, sizeof desc, "reconfigured (step %d, change %d%s)", step, what, use_resize ? ", resize" : "");
+		vf_phase("vbi3_raw_decoder_set_sampling_par");
+		vbi3_raw_decoder_set_sampling_par(x->rd3, sp, c.strict);
+		vf_phase("vbi3_raw_decoder_add_services");
+		vbi3_raw_decoder_add_services(x->rd3, c.req, c.strict);
+		{
+			vbi_raw_decoder *o = &x->rdo;
+			if (use_resize) {
+				vf_phase("vbi_raw_decoder_resize");
+				vbi_raw_decoder_resize(o, sp->start, (unsigned int *)sp->count);
+			} else {
+				vf_phase("vbi_raw_decoder_reset");
+				vbi_raw_decoder_reset(o);
+				o->scanning = sp->scanning; o->sampling_format = sp->sampling_format; o->sampling_rate = sp->sampling_rate;
+				o->bytes_per_line = sp->bytes_per_line; o->offset = sp->offset;
+				o->start[0] = sp->start[0]; o->start[1] = sp->start[1]; o->count[0] = sp->count[0]; o->count[1] = sp->count[1];
+				o->interlaced = sp->interlaced; o->synchronous = sp->synchronous;
+			}
+			vf_phase("vbi_raw_decoder_add_services");
+			vbi_raw_decoder_add_services(o, c.req, c.strict);
+		}
+		img_size = (size_t)scan * (size_t)sp->bytes_per_line;
+		img = EXACT_ALLOC(img_size, end_aligned);
+		out = EXACT_ALLOC(sizeof(vbi_sliced) * (size_t)scan, 1);
+		for (pass = 0; pass < 3; pass++) {
+			if (pass == 0) vf_bytes(r, img, img_size);
+			else if (pass == 1) memset(img, 0x10, img_size);
+			else {
+				const struct svc *s = c.set[vf_below(r, (unsigned)c.nset)];
+				double per = (double)sp->sampling_rate / s->clock;
+				size_t q;
+				for (q = 0; q < img_size; q++) img[q] = (fmod((double)((q % (size_t)sp->bytes_per_line) / (size_t)c.bpp), per * 2) < per) ? 200 : 60;
+			}
+			next_prefill();
+			memset(out, PREFILL, sizeof *out * (size_t)scan);
+			set_phase("vbi3_raw_decoder_decode", "reconfigured", &c);
+			n = (int)vbi3_raw_decoder_decode(x->rd3, out, (unsigned)scan, img);
+			check_out(&c, "vbi3_raw_decoder_decode", out, n, scan, desc);
+			next_prefill();
+			memset(out, PREFILL, sizeof *out * (size_t)scan);
+			set_phase("vbi_raw_decode", "reconfigured", &c);
+			n = vbi_raw_decode(&x->rdo, img, out);
+			check_out(&c, "vbi_raw_decode", out, n, scan, desc);
+			vf_count("decodes_after_reconfiguration", 2);
+		}
+		(void)i;
+		EXACT_FREE(out);
+		EXACT_FREE(img);
+		vf_count("reconfigurations", 1);
+		{ char cn[48]; snprintf(cn, sizeof cn, "reconfiguration_kind_%d", what); vf_count(cn, 1); }
+	}
+}
+
 static void borderline(const struct cfg5 *c0, struct vf_rng *r)
 {
 	struct cfg5 c = *c0;
@@ -670,6 +839,8 @@ static int run_case(struct vf_rng *r, long idx)
 	if (matches) nontrivial = 1;
 	vf_count("cri_matches", matches);
 	if (vf_chance(r, 1, 2)) { int q; for (q = 0; q < 3; q++) borderline(&c, r); }
+	{ int q; for (q = 0; q < 2; q++) slicer_edge(&c, r); }
+	if (x.have_old) reconfigure(&c, &x, r);
 
 	vf_phase("vbi3_raw_decoder_delete");
 	vbi3_raw_decoder_delete(x.rd3);
